@@ -156,6 +156,19 @@ type kTenant struct {
 }
 type kArr [3]uint16
 
+// key types whose strings do not sit in a top-level field: inside an array, inside a nested struct, inside an
+// array of structs - all need (and are given) a StringKey function before Go 1.24
+type kPath struct {
+	Tenant uint32
+	Path   [2]string
+}
+type kNested struct {
+	ID    int
+	Inner kTenant
+}
+type kArrOfStruct [2]kTenant
+type kStrArr [2]string
+
 func kMkStr(parts ...string) string { // a string with its own backing array
 	var sb strings.Builder
 	for _, p := range parts {
@@ -220,6 +233,18 @@ func TestVerif_C18Keys(t *testing.T) {
 		[]int{1, 1, 1, 1, 2, 3}, func(k kTenant) string { return k.Tenant })
 	kFamily(tr, "string_strkey_empty", []string{"", e1, e2, s1[2:2], "z"},
 		[]int{1, 1, 1, 1, 2}, func(k string) string { return k })
+
+	// strings below the top level of the key type, equal keys built from different backing arrays
+	a1, a2, b1 := kMkStr("al", "pha"), kMkStr("a", "lpha"), kMkStr("be", "ta")
+	kFamily(tr, "struct_array_of_strings_strkey", []kPath{{1, [2]string{"alpha", "beta"}}, {1, [2]string{a1, b1}}, {1, [2]string{a2, kMkStr("beta")}},
+		{2, [2]string{a1, b1}}, {1, [2]string{b1, a1}}, {1, [2]string{"", ""}}, {1, [2]string{kMkStr(), a1[:0]}}},
+		[]int{1, 1, 1, 2, 3, 4, 4}, func(k kPath) string { return fmt.Sprintf("%d|%s|%s", k.Tenant, k.Path[0], k.Path[1]) })
+	kFamily(tr, "nested_struct_strkey", []kNested{{1, kTenant{"alpha", 1}}, {1, kTenant{a1, 1}}, {1, kTenant{a2, 1}}, {2, kTenant{a1, 1}}, {1, kTenant{b1, 1}}},
+		[]int{1, 1, 1, 2, 3}, func(k kNested) string { return fmt.Sprintf("%d|%s|%d", k.ID, k.Inner.Tenant, k.Inner.ID) })
+	kFamily(tr, "array_of_structs_strkey", []kArrOfStruct{{{"alpha", 1}, {"beta", 2}}, {{a1, 1}, {b1, 2}}, {{a2, 1}, {kMkStr("beta"), 2}}, {{b1, 2}, {a1, 1}}},
+		[]int{1, 1, 1, 2}, func(k kArrOfStruct) string { return fmt.Sprintf("%s/%d/%s/%d", k[0].Tenant, k[0].ID, k[1].Tenant, k[1].ID) })
+	kFamily(tr, "array_of_strings_strkey", []kStrArr{{"alpha", "beta"}, {a1, b1}, {a2, kMkStr("beta")}, {b1, a1}, {"", ""}, {kMkStr(), a2[:0]}},
+		[]int{1, 1, 1, 2, 3, 3}, func(k kStrArr) string { return k[0] + "|" + k[1] })
 
 	// colliding keys in a loading cache: concurrent loads must not share results
 	for round := 0; round < 30; round++ {
